@@ -466,7 +466,10 @@ def run_case(case):
             except Exception:
                 pass
         twin = copy.deepcopy(m).double()
-        if not zoo.chain_moderate(b, X, C, case["spec"], bound=25.0 if case.get("big_inputs") else 15.0):  # the float64 twin is accurate in saturation (softplus forms)
+        Xg = X
+        if "logit_at_zero" in res.labels:
+            Xg = torch.where(X == 0, torch.full_like(X, 0.5), X)      # the exact zero is decided by the declared clamp, not by conditioning
+        if not zoo.chain_moderate(b, Xg, C, case["spec"], bound=25.0 if case.get("big_inputs") else 15.0):  # the float64 twin is accurate in saturation (softplus forms)
             res.inconclusive += 1
             return res
         with torch.no_grad():
